@@ -26,8 +26,11 @@ pub fn unhs(a: &str) -> Option<String> {
     String::from_utf8(bytes).ok()
 }
 
+/// NaN payload and sign are not observable through the model (Lean's `Float.toBits`
+/// canonicalises NaN), so every NaN crosses the wire as the canonical quiet NaN.
 pub fn num(x: f64) -> String {
-    format!("(num {:016x})", x.to_bits())
+    let bits = if x.is_nan() { 0x7ff8_0000_0000_0000u64 } else { x.to_bits() };
+    format!("(num {:016x})", bits)
 }
 
 pub fn binop(op: &BinaryOp) -> &'static str {
